@@ -240,7 +240,10 @@ def main():
         finally:
             shutil.rmtree(d, ignore_errors=True)
     os.makedirs(os.path.join(VERIF, "evidence"), exist_ok=True)
-    with open(os.path.join(VERIF, "evidence", "selftest.json"), "w") as f:
+    # (a run restricted with VERIF_SENS is a partial view: it must not replace the full record)
+    target = os.path.join(VERIF, "evidence", "selftest.json") if not sel else \
+        os.path.join(tempfile.gettempdir(), "selftest.partial.json")
+    with open(target, "w") as f:
         json.dump({"sensitivity": results, "missed": bad, "known_gaps": gaps}, f, indent=1)
     print(f"sensitivity: {len(results) - bad - gaps}/{len(results)} mutants caught"
           + (f", {gaps} known gap(s) (see seeded/<name>/meta.json 'note')" if gaps else ""))
